@@ -82,3 +82,9 @@ Definition cells_meet_in_faces (m : mesh) : bool :=
    cell's vertex mean strictly on its inner side — the "convex cell" predicate *)
 Definition cell_outwardb (pos : Z -> Z * Z * Z) (e : elem) : bool :=
   forallb (fun h => Z.ltb 0 (outward2 ZOps (map pos (conn_of e)) (map pos h))) (elem_faces e).
+
+(* ---- rows and columns of a COO triple list (row, column, value) ---- *)
+Definition row_of {V} (i : nat) (tr : list (nat * nat * V)) : list (nat * nat * V) :=
+  filter (fun t => Nat.eqb (fst (fst t)) i) tr.
+Definition col_of {V} (j : nat) (tr : list (nat * nat * V)) : list (nat * nat * V) :=
+  filter (fun t => Nat.eqb (snd (fst t)) j) tr.
